@@ -256,7 +256,7 @@ func c153(c *an.Ctx, p *an.Prog) {
 		for _, ec := range calls {
 			effs[ec.Effect] = true
 			switch ec.Effect {
-			case an.EffFSStat, an.EffFSRename, an.EffFSSync, an.EffFSRead, an.EffClose, an.EffPure:
+			case an.EffFSStat, an.EffFSRename, an.EffFSSync, an.EffFSRead, an.EffClose, an.EffPure, an.EffRandom:
 			default:
 				bad = append(bad, fmt.Sprintf("%s [%s] in %s at %s", ec.Name, ec.Effect, fnKey(f), p.InstrPos(ec.In)))
 			}
